@@ -100,9 +100,15 @@ func (r *c13Rig) initCPU(c *c13Case, cpu *z80.CPU, m *progMachine) {
 	cpu.HL.SetU16(0x4000)
 	cpu.DE.SetU16(0x5000)
 	cpu.IR.Lo = uint8(c.R)
-	if c.Pending == "int" {
+	switch c.Pending {
+	case "int":
 		cpu.IFF1, cpu.IFF2, cpu.IM = false, false, 1
 		cpu.Interrupt = z80.IM1Interrupt()
+	case "im0-halt", "im0-jr", "im0-nop", "im0-rst":
+		// a mode-0 request that is accepted by the first Step; the device supplies something else than the usual RST
+		cpu.IFF1, cpu.IFF2, cpu.IM = true, true, 0
+		data := map[string][]uint8{"im0-halt": {0x76}, "im0-jr": {0x18, 0xFE}, "im0-nop": {0x00, 0x00, 0x00}, "im0-rst": {0xFF}}[c.Pending]
+		cpu.Interrupt = z80.IM0Interrupt(data[0], data[1:]...)
 	}
 }
 
@@ -228,6 +234,20 @@ func (r *c13Rig) runCtx(c *c13Case, parent context.Context) c13Outcome {
 		r.twin.Step()
 		steps++
 	}
+	// Steps that make no access at all (a mode-0 acknowledge whose instruction comes from the device) do not
+	// move the access count: allow a few more as long as the count stays put
+	for extra := 0; extra < 4 && r.tm.nAcc == target && (r.cpu.States != r.twin.States || r.cpu.HALT != r.twin.HALT); extra++ {
+		saved, savedM := r.twin, r.tm.nAcc
+		r.twin.Step()
+		steps++
+		if r.tm.nAcc != savedM {
+			// that Step did access memory: Run cannot have executed it (memory was not changed by it: the
+			// comparison below still sees the state before it)
+			r.twin = saved
+			steps--
+			break
+		}
+	}
 	o.steps = steps
 	if r.tm.nAcc != target {
 		o.msg = fmt.Sprintf("Run stopped after %d accesses, which is inside Step %d (Steps end at %d accesses)", target, steps, r.tm.nAcc)
@@ -343,8 +363,8 @@ func TestC13(t *testing.T) {
 				c.Instant = rapid.SampledFrom([]string{"pre", "hook", "timer", "timeout", "never", "never"}).Draw(t, "instant")
 			} else {
 				c.Loop = rapid.SampledFrom([]string{"jr", "jp", "nops", "ldir", "otir", "djnz", "jpix", "ldra", "ldirix", "body", "body", "prefixes"}).Draw(t, "loop")
-				if rapid.IntRange(0, 3).Draw(t, "pending") == 0 && c.Loop != "body" {
-					c.Pending = "int"
+				if c.Loop != "body" {
+					c.Pending = rapid.SampledFrom([]string{"", "", "", "", "", "", "int", "int", "im0-halt", "im0-jr", "im0-nop", "im0-rst"}).Draw(t, "pending")
 				}
 				c.PC = rapid.SampledFrom([]uint16{0x0100, 0xFFFE, 0x0000, 0x7000}).Draw(t, "pc")
 				c.R = int(rapid.OneOf(rapid.SampledFrom([]uint8{0, 1, 0x7F, 0x80, 0xFF}), rapid.Uint8()).Draw(t, "r"))
@@ -401,6 +421,9 @@ func TestC13(t *testing.T) {
 			if i%3 == 0 {
 				c = c13Case{Loop: "nops", PC: 0x0100, Instant: "never"}
 			}
+			if i%8 == 1 {
+				c = c13Case{Loop: "prefixes", PC: 0x0100, Instant: "hook", N: 40 + i} // undefined op-codes all the way (the emulator warns about each)
+			}
 			var o c13Outcome
 			if c.Instant == "never" {
 				o = rig.haltOrBreak(batchCtx, i%2 == 0)
@@ -414,10 +437,10 @@ func TestC13(t *testing.T) {
 		}
 		// goroutine accounting: every watcher must be gone although batchCtx is still alive
 		deadline := time.Now().Add(10 * time.Second)
-		for runtime.NumGoroutine() > base+2 && time.Now().Before(deadline) {
+		for runtime.NumGoroutine() > base && time.Now().Before(deadline) {
 			time.Sleep(2 * time.Millisecond)
 		}
-		if n := runtime.NumGoroutine(); n > base+2 {
+		if n := runtime.NumGoroutine(); n > base {
 			violation(t, "C13", "cancel", map[string]any{"batch": batch}, "goroutine count back to baseline after a batch of Run calls",
 				fmt.Sprintf("%d goroutines before a batch of %d Run calls, %d still alive 10 s after it", base, batch, n))
 		}
